@@ -231,6 +231,18 @@ class Explorer(object):
                 raise Raised(Abs('AssertionError'), st)
         elif isinstance(st, (ast.Pass, ast.Global, ast.Nonlocal)):
             pass
+        elif isinstance(st, ast.Delete) and all(isinstance(t, ast.Subscript) for t in st.targets):
+            for t in st.targets:
+                base = self.expr(t.value, env)
+                idx = self.expr(t.slice, env) if not isinstance(t.slice, ast.Slice) else None
+                if isinstance(base, list) and isinstance(idx, int):
+                    if not -len(base) <= idx < len(base):
+                        raise Raised(Abs('IndexError'), st)
+                    del base[idx]
+                elif isinstance(base, dict) and idx in base:
+                    del base[idx]
+                else:
+                    raise Undecided('del outside the abstract interpreter', st)
         elif isinstance(st, ast.Try):
             try:
                 self.block(st.body, env)
@@ -268,6 +280,8 @@ class Explorer(object):
             return gen()
         if isinstance(it, (list, tuple, range)):
             return list(it)
+        if isinstance(it, set):
+            return list(it)       # the iteration order of the interpreter the repository runs under
         if isinstance(it, dict):
             return list(it.keys())
         raise Undecided('loop over {!r} in abstract exploration'.format(it), node)
@@ -334,10 +348,13 @@ class Explorer(object):
             c = self.port.module_consts(self.modname).get(e.id, NOT_HANDLED) if hasattr(self.port, 'module_consts') else NOT_HANDLED
             if c is not NOT_HANDLED:
                 return c
-            if e.id in ('len', 'iter', 'str', 'int', 'bool', 'list', 'tuple', 'isinstance', 'range', 'enumerate', 'min', 'max', 'any', 'all', 'type', 'set', 'Set', 'sorted', 'sum', 'Map', 'dict', 'Array'):
+            if e.id in ('len', 'iter', 'str', 'int', 'bool', 'list', 'tuple', 'isinstance', 'range', 'enumerate', 'min', 'max', 'any', 'all', 'type', 'set', 'Set', 'sorted', 'sum', 'Map', 'dict', 'Array', '__regex__', 'reversed'):
                 return ('builtin', e.id)
             if e.id in getattr(self.port, 'modules', {}) or e.id in ('re', 'os', 'sys', 'math', 'JSON', 'Math', 'Object', 'Buffer', 'csv_utils', 'rbql_engine', 'rbql'):
                 return ('global', e.id)
+            fd_ = self.port.func(self.modname, e.id, required=False) if hasattr(self.port, 'func') else None
+            if fd_ is not None and isinstance(fd_, ast.FunctionDef):
+                return ('closure', fd_, {})
             # a module-level table of constants (`WILDCARDS = new Map([['_', '.'], ...])`, a dict / list / tuple literal), bound once
             mod_ = getattr(self.port, 'modules', {}).get(self.modname)
             if mod_ is not None:
@@ -554,6 +571,8 @@ class Explorer(object):
                 fd_ = self.port.func(self.modname, '{}.{}'.format(self.cls, name_), required=False)
                 if fd_ is not None:
                     return self.call_fd(fd_, [obj_] + args if fd_.args.args and fd_.args.args[0].arg in ('self', 'this') else args, kwargs)
+            if recv == ('global', 'Array') and m == 'from' and len(args) == 1 and isinstance(args[0], (list, tuple, set)):
+                return list(args[0])
             if recv == ('global', 'Math') and m in ('max', 'min') and args and all(isinstance(a, (int, float)) and not isinstance(a, bool) for a in args):
                 return max(args) if m == 'max' else min(args)
             # a method of the class under analysis
@@ -605,8 +624,14 @@ class Explorer(object):
             seq = list(args[0]) if len(args) == 1 and isinstance(args[0], (list, tuple)) else list(args)
             if seq and all(isinstance(x, (int, float)) and not isinstance(x, bool) for x in seq):
                 return min(seq) if name == 'min' else max(seq)
-        if name in ('sorted', 'sum') and len(args) == 1 and isinstance(args[0], (list, tuple)) and all(isinstance(x, (int, float)) and not isinstance(x, bool) for x in args[0]):
+        if name in ('sorted', 'sum') and len(args) == 1 and isinstance(args[0], (list, tuple, set)) and all(isinstance(x, (int, float)) and not isinstance(x, bool) for x in args[0]):
             return sorted(args[0]) if name == 'sorted' else sum(args[0])
+        if name == 'sorted' and len(args) == 1 and isinstance(args[0], (list, tuple, set)) and all(isinstance(x, str) for x in args[0]):
+            return sorted(args[0])
+        if name == 'reversed' and len(args) == 1 and isinstance(args[0], (list, tuple)):
+            return list(reversed(args[0]))
+        if name in ('set', 'Set') and len(args) == 1 and isinstance(args[0], (list, tuple, set)) and all(isinstance(x, (int, str)) or isinstance(x, Abs) for x in args[0]):
+            return set(args[0])
         if name == 'type' and len(args) == 1 and isinstance(args[0], Abs) and 'cls' in args[0].props:
             return ('class', args[0].props['cls'])
         if name == 'isinstance' and len(args) == 2 and isinstance(args[1], tuple) and args[1] and args[1][0] == 'class':
@@ -625,11 +650,20 @@ class Explorer(object):
         if name in ('any', 'all') and len(args) == 1 and isinstance(args[0], (list, tuple)):
             ts = [self.truth(x, node) for x in args[0]]
             return any(ts) if name == 'any' else all(ts)
+        if name == '__regex__' and args and isinstance(args[0], str):
+            return ('regex', args[0], args[1] if len(args) > 1 and isinstance(args[1], str) else '')
+        if name == 'str' and len(args) == 1 and isinstance(args[0], (int, str)) and not isinstance(args[0], bool):
+            return str(args[0])
+        if name == 'int' and len(args) == 1 and isinstance(args[0], (int, str)) and not isinstance(args[0], bool):
+            try:
+                return int(args[0])
+            except ValueError:
+                raise Raised(Abs('ValueError'), node)
         if name == 'bool' and len(args) == 1:
             return self.truth(args[0], node)
         if name in ('list', 'tuple') and len(args) == 1 and isinstance(args[0], LazyIter):
             args = [list(self.iterate(args[0], node))]
-        if name in ('list', 'tuple') and len(args) == 1 and isinstance(args[0], (list, tuple)):
+        if name in ('list', 'tuple') and len(args) == 1 and isinstance(args[0], (list, tuple, set)):
             return list(args[0]) if name == 'list' else tuple(args[0])
         if name == 'list' and not args:
             return []
@@ -667,7 +701,23 @@ class Explorer(object):
             if m == 'at' and len(args) == 1 and isinstance(args[0], int):
                 return recv[args[0]] if -len(recv) <= args[0] < len(recv) else None
             if m == 'join' and len(args) <= 1:   # JS: lines.join('\n')
+                if all(isinstance(x, (str, int)) and not isinstance(x, bool) for x in recv) and (not args or isinstance(args[0], str)):
+                    return (args[0] if args else ',').join(str(x) for x in recv)
                 return Abs('Joined', sep=(args[0] if args else ','), items=tuple(recv))
+            if m == 'sort' and len(args) <= 1 and all(isinstance(x, (int, str)) and not isinstance(x, bool) for x in recv):
+                import functools
+                if args:
+                    def cmp_(a_, b_):
+                        r_ = self.apply(args[0], [a_, b_], node)
+                        if not isinstance(r_, (int, float)):
+                            raise Undecided('comparator result {!r}'.format(r_), node)
+                        return -1 if r_ < 0 else (1 if r_ > 0 else 0)
+                    recv.sort(key=functools.cmp_to_key(cmp_))
+                elif getattr(self.port, 'name', 'py') == 'js':
+                    recv.sort(key=lambda x: str(x))      # Array.prototype.sort without a comparator orders by the string form
+                else:
+                    recv.sort()
+                return recv if getattr(self.port, 'name', 'py') == 'js' else None
             if m == 'concat' and len(args) == 1 and isinstance(args[0], list):
                 return recv + args[0]
             if m == 'slice' and len(args) <= 2 and all(isinstance(a, int) for a in args):
@@ -704,6 +754,21 @@ class Explorer(object):
                 return getattr(recv, m.lower())(args[0])
             if m == 'count' and len(args) == 1 and isinstance(args[0], str):
                 return recv.count(args[0])
+            if m == 'replace' and len(args) == 2 and isinstance(args[0], tuple) and args[0] and args[0][0] == 'regex' and isinstance(args[1], str) and '$' not in args[1]:
+                # a regex constant applied to a concrete string: evaluated with the translated pattern
+                import re as _re
+                from . import regexlang as _R
+                try:
+                    pat_ = _R.js_to_py(args[0][1]) if hasattr(_R, 'js_to_py') else args[0][1]
+                    return _re.sub(pat_, args[1].replace('\\', '\\\\'), recv, count=0 if 'g' in args[0][2] else 1, flags=_re.I if 'i' in args[0][2] else 0)
+                except Exception:
+                    raise Undecided('regex replace outside the abstract interpreter', node)
+            if m == 'replace' and len(args) == 2 and isinstance(args[0], str) and isinstance(args[1], str):
+                return recv.replace(args[0], args[1]) if getattr(self.port, 'name', 'py') == 'py' else recv.replace(args[0], args[1], 1)
+            if m == 'split' and len(args) == 1 and isinstance(args[0], str) and args[0]:
+                return recv.split(args[0])
+            if m in ('strip', 'trim') and not args:
+                return recv.strip()
             if m == 'repeat' and len(args) == 1 and isinstance(args[0], int) and 0 <= args[0] < 100:
                 return recv * args[0]
             if m == 'charAt' and len(args) == 1 and isinstance(args[0], int):
